@@ -44,6 +44,8 @@ def run(tier):
             {'label': 'items', 'harness': HItem(pool=5, cap=4, max_list=2, rich=True, patterns=('plain', 'p-between')),
              'monitors': [RoundTrip()]},
         ]
+    parts.append({'label': 'pretty-printed-running-orders', 'harness': HStory(pool=4, cap=3, max_list=1, rich=True, pretty_states=True, pretty_msgs=True,
+                                                                               layouts=('between',)), 'monitors': [RoundTrip()], 'opts': {'max_depth': 1}})
     return runner.graph_check(
         'C14', tier, parts, rule=RULE, vacuity=vacuity,
         assumptions=['all messages are addressed to the running order\'s own roID',
